@@ -684,11 +684,14 @@ def gen_population(rng, schema, n, **kw):
     return fix_derived(schema, G.gen_population(rng, schema, n, **kw))
 
 
+NEAR_REAL = ["5E0", "-12E+3", "2E1", "5", "-3", ".5", "-.5E1", "1.5e3", "1.5E", "1.5E+", "1.E"]
 WRONG_KIND = {   # attribute kind -> literals of *another* kind
-    "INTEGER": ["'abc'", ".T.", "#REF", "(1)", '"0F"', "1.5X"], "DEF_INT": ["'abc'", ".T."],
+    "INTEGER": ["'abc'", ".T.", "#REF", "(1)", '"0F"', "1.5X"] + ["5.", "1.0", "7E1", "+"], "DEF_INT": ["'abc'", ".T.", "5."],
     # (the shapes the detection lemmas of Props/C03.lean exclude are generated too: a REAL that starts with the exponent
     #  letter or the point, an enumeration item / boolean without its dots, a string without apostrophes)
-    "REAL": ["'abc'", ".T.", "#REF", "(1.5)", "E5", "e", ".E1", "-", "+.", "ABC"], "DEF_REAL": ["'abc'", ".F.", "E+5"],
+    # near misses of the REAL production, one mandatory element dropped each: no point (with and without exponent), no
+    # leading digit, lower-case exponent letter, exponent letter without digits (wave e, seed C03-e2)
+    "REAL": ["'abc'", ".T.", "#REF", "(1.5)", "E5", "e", ".E1", "-", "+.", "ABC"] + NEAR_REAL, "DEF_REAL": ["'abc'", ".F.", "E+5", "5E0", "2E1"],
     "NUMBER": ["'abc'", ".T.", "#REF", "E5", "-", ".", "ABC", ".E1", "*"],
     "STRING": ["5", "1.5", ".T.", "#REF", "(1)", "abc", "\"0F\""], "BOOLEAN": ["5", "'T'", "#REF", "1.5", "T", "TRUE", ".T"],
     "LOGICAL": ["5", "'U'", "#REF", "U", ".U"],
@@ -710,7 +713,14 @@ DOLLAR_JUNK_KINDS = ("INTEGER", "REAL", "NUMBER", "STRING", "BOOLEAN", "LOGICAL"
 SENTINELS = False
 SENTINEL_LITS = {"INTEGER": ["9223372036854775807"], "REAL": ["1.1754943508222875E-38", "1.17549435082228750797E-38"],
                  "NUMBER": ["1.1754943508222875E-38"]}
-AGG_ELEM_WRONG = {"AGG_INT": ["'x'", ".T.", "#REF"], "AGG_REAL": ["'x'", ".T."], "AGG_STR": ["5", ".T."],
+# near misses of the grammar's productions, each with one mandatory element dropped - every one generated (not sampled)
+# when violations(..., near_miss=True): REAL without point (with / without exponent) / without leading digit / lower-case
+# e / E without digits; INTEGER with point or exponent; ENUMERATION / BOOLEAN without a dot; BINARY without a quote
+NEAR_MISS = {"REAL": NEAR_REAL, "DEF_REAL": ["5E0", "2E1", "7", ".5"], "INTEGER": ["5.", "1.0", "7E1", "5E0"], "DEF_INT": ["5."],
+             "ENUM": [".RED", "RED.", "RED"], "BOOLEAN": [".T", "T.", "T"], "LOGICAL": [".U", "U."],
+             "BINARY": ['"0F', '0F"', "0F"]}     # (a STRING with one apostrophe is the class unterminated_string)
+NEAR_MISS_ELEM = {"AGG_REAL": ["5E0", "-12E+3", "2E1", "5", ".5", "1.5e3", "1.5E"], "AGG_INT": ["5.", "7E1"]}
+AGG_ELEM_WRONG = {"AGG_INT": ["'x'", ".T.", "#REF", "5."], "AGG_REAL": ["'x'", ".T.", "5E0", "-12E+3", "2E1", "5", ".5", "1.5e3", "1.5E"], "AGG_STR": ["5", ".T."],
                   "AGG_ENT": ["5", "'x'"], "AGG_ENTS": ["5", ".T."]}
 
 
@@ -750,7 +760,7 @@ STRING_DELIMS = ["'a)b;c'", "'x,y'", "'p)'", "'((q'", "'it''s;)'", "');#1=X('"]
 STRING_DELIM_KINDS = ("INTEGER", "DEF_INT", "REAL", "DEF_REAL", "NUMBER", "BOOLEAN", "LOGICAL", "ENUM", "XENUM", "BINARY", "ENTITY")
 
 
-def violations(rng, schema, pop, per_class=1, string_delims=False, missing_elem=False):
+def violations(rng, schema, pop, per_class=1, string_delims=False, missing_elem=False, near_miss=False):
     """-> [Violation]; `insts` is the file content: Inst objects or raw text for the mutated instance"""
     out = []
     ids = [i.id for i in pop]
@@ -787,6 +797,24 @@ def violations(rng, schema, pop, per_class=1, string_delims=False, missing_elem=
         lit = rng.choice(lits).replace("#REF", someref)
         out.append(Violation("wrong_kind", pop[ii].id, replaced(ii, _set_val(pop[ii], pi, ai, ("tok", lit))),
                              where(pop[ii], pi, ai, a) + ":" + re.sub(r"[^A-Za-z0-9#'.()\"]", "", lit)[:6]))
+    if near_miss:
+        allpos = [(ii, pi, ai, a, v) for ii, inst in enumerate(pop) for pi, (n, vs) in enumerate(inst.parts)
+                  for ai, (a, v) in enumerate(zip(G.part_attrs(schema, inst, pi), vs)) if v[0] not in ("derived", "null")]
+        clean = lambda lit: re.sub(r"[^A-Za-z0-9#'.()+-]", "", lit.replace('"', "q"))[:8]
+        for kind, lits in sorted(NEAR_MISS.items()):
+            cand = [x for x in allpos if x[3].kind == kind]
+            for j, lit in enumerate(lits if cand else []):
+                (ii, pi, ai, a, v) = cand[(j + rng.randrange(len(cand))) % len(cand)]
+                out.append(Violation("wrong_kind", pop[ii].id, replaced(ii, _set_val(pop[ii], pi, ai, ("tok", lit))),
+                                     where(pop[ii], pi, ai, a) + ":near:" + clean(lit)))
+        for kind, lits in sorted(NEAR_MISS_ELEM.items()):
+            cand = [x for x in allpos if x[3].kind == kind and x[4][0] == "aggr" and len(x[4][1]) >= 1]
+            for j, lit in enumerate(lits if cand else []):
+                (ii, pi, ai, a, v) = cand[(j + rng.randrange(len(cand))) % len(cand)]
+                k = rng.randrange(len(v[1]))
+                nv = ("aggr", [("tok", lit) if q == k else x for q, x in enumerate(v[1])])
+                out.append(Violation("wrong_kind_in_aggregate", pop[ii].id, replaced(ii, _set_val(pop[ii], pi, ai, nv)),
+                                     where(pop[ii], pi, ai, a) + ":near:" + clean(lit)))
     # a stray `/` (no comment) or `\` (no complete print control directive) in front of a parameter: ReadTokenSeparator drops
     # it without a word - the malformed file reads clean (finding detect:stray-slash-or-backslash-between-parameters)
     STRAY = ["/ ", "//", "\\N ", "\\"]
@@ -994,6 +1022,83 @@ def violations(rng, schema, pop, per_class=1, string_delims=False, missing_elem=
         bad = _set_val(pop[ii], pi, ai, ("tok", v[1][:-1]))
         out.append(Violation("unterminated_string", pop[ii].id, replaced(ii, bad), where(pop[ii], pi, ai, a),
                              lost=[x.id for x in pop[ii + 1:]] + ([pop[ii].id] if pop[ii].is_complex else [])).close(pop))
+    return out
+
+
+
+# ------------------------------------------------------------------ redeclared (explicitly narrowed) positions  (wave e, seed C03-e1)
+def redecl_schema(name="rdc"):
+    """subtypes that narrow inherited EXPLICIT attributes (`SELF\\super.attr : narrower;`), one and two levels deep: an
+    entity-valued attribute, an aggregate of entities and a NUMBER narrowed to INTEGER.  The C++ class keeps the inherited
+    slot and adds a redefining attribute the slot forwards to (`_redefAttr`)."""
+    E, A = G.Entity, G.Attr
+    ents = [E("t0", None, [A("t0_i", "INTEGER", False), A("t0_peer", "ENTITY", True, "t1"), A("t0_s", "STRING", True)]),
+            E("t1", None, [A("t1_r", "REAL", False), A("t1_peers", "AGG_ENT", True, "t0")]),
+            E("t0s", "t0", [A("t0s_rank", "INTEGER", False)]),
+            E("t0ss", "t0s", [A("t0ss_z", "STRING", False)]),
+            E("rh", None, [A("rh_label", "STRING", False), A("rh_content", "ENTITY", False, "t0"),
+                           A("rh_items", "AGG_ENT", False, "t0"), A("rh_num", "NUMBER", False), A("rh_opt", "ENTITY", True, "t1")]),
+            E("rhs", "rh", [A("rhs_tag", "STRING", False)],
+              redecl=[("rh", A("rh_content", "ENTITY", False, "t0s")), ("rh", A("rh_items", "AGG_ENT", False, "t0s")),
+                      ("rh", A("rh_num", "INTEGER", False))]),
+            E("rhs2", "rhs", [A("rhs2_n", "INTEGER", False)], redecl=[("rh", A("rh_content", "ENTITY", False, "t0ss"))])]
+    return G.Schema(name, ents, ["t0", "t1"])
+
+
+REDECL_SHAPES = [["t0"], ["t0"], ["t0s"], ["t0s"], ["t0ss"], ["t1"], ["rh"], ["rhs"], ["rhs"], ["rhs2"], ["rhs2"]]
+
+
+def redecl_population(rng, schema):
+    return G.gen_population(rng, schema, 0, shapes=REDECL_SHAPES, p_null_optional=0.3)
+
+
+def redecl_violations(rng, schema, pop):
+    """every violation class of the statement that applies, at EVERY redeclared position of every instance (position class
+    `@redecl1` / `@redecl2`: narrowed by the instance's entity's supertype chain once / twice)"""
+    out = []
+    ids = [i.id for i in pop]
+    free_id = max(ids) + 100
+
+    def replaced(ii, new):
+        return [new if k == ii else x for k, x in enumerate(pop)]
+
+    def level(ent, aname):
+        n, e = 0, schema.by_name[ent]
+        while e is not None:
+            n += sum(1 for _, na in e.redecl if na.name == aname)
+            e = schema.by_name[e.supertype] if e.supertype else None
+        return n
+
+    for ii, inst in enumerate(pop):
+        if inst.is_complex:
+            continue
+        ent = inst.parts[0][0].lower()
+        for ai, (a, v) in enumerate(zip(G.part_attrs(schema, inst, 0), inst.parts[0][1])):
+            if not getattr(a, "redef_name", None) or v[0] in ("null", "derived"):
+                continue
+            w = f"{a.kind}@redecl{level(ent, a.name)}"
+            put = lambda nv: replaced(ii, _set_val(inst, 0, ai, nv))
+            for lit in WRONG_KIND.get(a.kind, []) + NEAR_MISS.get(a.kind, []):
+                lit2 = lit.replace("#REF", f"#{ids[0]}")
+                if a.kind == "ENTITY" and lit2.startswith("(#"):
+                    continue
+                out.append(Violation("wrong_kind", inst.id, put(("tok", lit2)), w + ":" + re.sub(r"[^A-Za-z0-9#'.()+-]", "", lit.replace('"', "q"))[:8]))
+            out.append(Violation("star_not_derived", inst.id, put(("derived",)), w))
+            if a.kind == "ENTITY":
+                out.append(Violation("dangling_reference", inst.id, put(("ref", free_id + 7)), w))
+                for bad in ("#", "#x"):
+                    out.append(Violation("bad_reference_at_entity", inst.id, put(("tok", bad)), w + ":malformed:" + bad))
+                seen = set()
+                for x in pop:
+                    ty = x.parts[0][0]
+                    if not x.is_complex and x.id != inst.id and ty not in seen and not schema.is_a(ty.lower(), a.target):
+                        seen.add(ty)
+                        out.append(Violation("wrong_type_reference", inst.id, put(("ref", x.id)), w + f":{a.target.upper()}<-{ty}"))
+            if a.kind == "AGG_ENT":
+                out.append(Violation("missing_required_aggregate", inst.id, put(("null",)), w))
+                out.append(Violation("dangling_reference_in_aggregate", inst.id, put(("aggr", [("ref", free_id + 9)] + list(v[1][1:]))), w))
+                for lit in AGG_ELEM_WRONG["AGG_ENT"]:
+                    out.append(Violation("wrong_kind_in_aggregate", inst.id, put(("aggr", [("tok", lit)] + list(v[1][1:]))), w + ":" + lit[:3]))
     return out
 
 
